@@ -46,7 +46,16 @@ func CollectNow() {
 	time.Sleep(200 * time.Microsecond)
 }
 
+// ErrPanic as the Err of a ScriptedReader makes the reader panic at its
+// failure point instead of returning an error (a caller-supplied source may
+// do that - the library's own RFC6979SHA256() reader does when it is used
+// out of context - and the caller may recover and go on using its key).
+var ErrPanic = errors.New("scripted reader panic")
+
 func (r *ScriptedReader) failure() error {
+	if r.Err == ErrPanic {
+		panic(ErrPanic)
+	}
 	if r.Err != nil {
 		return r.Err
 	}
